@@ -6,12 +6,13 @@
    still computes exactly the transcribed function" where the property is silent (failure = drift).   *)
 EXTENDS Quorum, PowerScale, Json, TLCExt, TLC
 CONSTANT TraceFile
-VARIABLES l, row, bad
+VARIABLES l, bad
 
 TraceLog == ndJsonDeserialize(TraceFile)
-NoRow == [k |-> "none"]
-TInit == l = 1 /\ row = NoRow /\ bad = {}
-TNext == l <= Len(TraceLog) /\ l' = l + 1 /\ row' = TraceLog[l]
+\* the row consumed by the step that leaves state l (clauses are evaluated on it, unprimed)
+row == TraceLog[l]
+TInit == l = 1 /\ bad = {}
+TNext == l <= Len(TraceLog) /\ l' = l + 1
 
 \* ---------------------------------------------------------------- threshold rows
 \* A predicate over parts 0..w was compressed by the driver to (least part where it holds or w+1,
@@ -53,40 +54,51 @@ Conf_CouldReachRow == IsCR => /\ row.r0 = CouldReach(row.s, row.v, row.w, FALSE)
 
 \* ---------------------------------------------------------------- large int64 operands (limbs)
 IsBig == row.k = "big"
-C08_BigStrongExact == IsBig => (row.strong <=> Leq(MulSmall(row.whole, 2), MulSmall(row.part, 3)))
-C08_BigWeakStrict == IsBig => (row.weak => Less(row.whole, MulSmall(row.part, 3)))
-\* Weak(p, w) <=> 3p > w + 2  (L_WeakLinear in MCQuorum)
-Conf_BigWeakExact == IsBig => (row.weak <=> Less(Add(row.whole, <<2>>), MulSmall(row.part, 3)))
+C08_BigStrongExact == IsBig => (row.strong <=> LeqK(row.whole, 2, row.part, 3))
+C08_BigWeakStrict == IsBig => (row.weak => LessK(row.whole, 1, row.part, 3))
+\* Weak(p, w) <=> 3p > w + 2  (WeakLinear, proved; L_WeakLinear in MCQuorum); whole2 = whole + 2 as logged
+Conf_BigWeakExact == IsBig => /\ SumIs(<<row.whole, <<2>>>>, row.whole2)
+                              /\ (row.weak <=> LessK(row.whole2, 1, row.part, 3))
 
 \* ---------------------------------------------------------------- the same threshold everywhere
 IsUse == row.k = "use"
 C08_SitesAgree == IsUse => (row.ok <=> 3 * row.part >= 2 * row.whole)
 IsTally == row.k = "tally"
-TS == SumInts(row.pw, 1)
-TV == TS + SumInts(row.po, 1)
-TO == SumInts(row.po, 1)
-C08_TallyStrong == IsTally => /\ (row.strongFor <=> 3 * TS >= 2 * row.w)
-                              /\ (row.fromStrong <=> 3 * TV >= 2 * row.w)
-C08_TallyWeakStrict == IsTally => (row.fromWeak => 3 * TV > row.w)
-C08_TallyCouldReachSound == IsTally =>
-    /\ (~row.cr0 => ~Strong(TS + (row.w - TV), row.w))
-    /\ (~row.cr1 => ~Strong(Min2(TS + (row.w - TV) + (row.w \div 3), row.w), row.w))
-    /\ (~row.ocr0 => ~Strong(TO + (row.w - TV), row.w))
-    /\ (~row.ocr1 => ~Strong(Min2(TO + (row.w - TV) + (row.w \div 3), row.w), row.w))
-Conf_Tally == IsTally => /\ row.fromWeak = Weak(TV, row.w)
-                         /\ row.cr0 = CouldReach(TS, TV, row.w, FALSE) /\ row.cr1 = CouldReach(TS, TV, row.w, TRUE)
-                         /\ row.ocr0 = CouldReach(TO, TV, row.w, FALSE) /\ row.ocr1 = CouldReach(TO, TV, row.w, TRUE)
+Sum(seq) == FoldLeft(LAMBDA acc, x : acc + x, 0, seq)
+TallyStrong(ts, tv, w) == /\ (row.strongFor <=> 3 * ts >= 2 * w) /\ (row.fromStrong <=> 3 * tv >= 2 * w)
+C08_TallyStrong == IsTally => LET ts == Sum(row.pw) IN TallyStrong(ts, ts + Sum(row.po), row.w)
+C08_TallyWeakStrict == IsTally => (row.fromWeak => 3 * (Sum(row.pw) + Sum(row.po)) > row.w)
+TallySound(ts, to, tv, w) ==
+    /\ (~row.cr0 => ~Strong(ts + (w - tv), w))
+    /\ (~row.cr1 => ~Strong(Min2(ts + (w - tv) + (w \div 3), w), w))
+    /\ (~row.ocr0 => ~Strong(to + (w - tv), w))
+    /\ (~row.ocr1 => ~Strong(Min2(to + (w - tv) + (w \div 3), w), w))
+C08_TallyCouldReachSound == IsTally => LET ts == Sum(row.pw) to == Sum(row.po) IN TallySound(ts, to, ts + to, row.w)
+TallyConf(ts, to, tv, w) ==
+    /\ row.fromWeak = Weak(tv, w)
+    /\ row.cr0 = CouldReach(ts, tv, w, FALSE) /\ row.cr1 = CouldReach(ts, tv, w, TRUE)
+    /\ row.ocr0 = CouldReach(to, tv, w, FALSE) /\ row.ocr1 = CouldReach(to, tv, w, TRUE)
+Conf_Tally == IsTally => LET ts == Sum(row.pw) to == Sum(row.po) IN TallyConf(ts, to, ts + to, row.w)
 
 \* ---------------------------------------------------------------- scaling rows
 IsScale == row.k = "scale"
 ScOK == IsScale /\ row.ok
-PT == SumSeq(row.p, 1)
 AllPositive == \A i \in 1..Len(row.p) : ~IsZero(row.p[i])
 \* "order-preserving, individually at most 65,535 and sum to at most 65,535"
-C08_ScaleOrder == ScOK => Len(row.scaled) = Len(row.p) /\ OrderPreservingBig(row.p, row.scaled)
+\* row.ord = the member indices sorted by ascending power, as logged; verified here, then order
+\* preservation is checked on neighbours (equal powers => equal scaled powers)
+OrdIsSorted == /\ Len(row.ord) = Len(row.p) /\ {row.ord[i] : i \in 1..Len(row.ord)} = 1..Len(row.p)
+               /\ \A i \in 1..(Len(row.ord) - 1) : Leq(row.p[row.ord[i]], row.p[row.ord[i + 1]])
+C08_ScaleOrder == ScOK => /\ Len(row.scaled) = Len(row.p)
+                          /\ \A i \in 1..(Len(row.ord) - 1) :
+                                /\ row.scaled[row.ord[i]] <= row.scaled[row.ord[i + 1]]
+                                /\ (row.p[row.ord[i]] = row.p[row.ord[i + 1]] => row.scaled[row.ord[i]] = row.scaled[row.ord[i + 1]])
+Conf_ScaleOrdLogged == ScOK => OrdIsSorted
 C08_ScaleBound == ScOK => Bounded(row.scaled)
-C08_ScaleSum == ScOK => SumInts(row.scaled, 1) <= MaxScaled /\ row.total = SumInts(row.scaled, 1)
-Conf_ScaleFloor == ScOK => \A i \in 1..Len(row.p) : IsFloorScale(row.p[i], PT, row.scaled[i])
+C08_ScaleSum == ScOK => LET t == Sum(row.scaled) IN t <= MaxScaled /\ row.total = t
+\* row.t = total unscaled power as logged; checked to be the sum of the powers
+Conf_ScaleFloor == ScOK => /\ SumIs(row.p, row.t)
+                           /\ \A i \in 1..Len(row.p) : IsFloorScale(row.p[i], row.t, row.scaled[i])
 Conf_ScaleAccepts == IsScale => (row.ok <=> AllPositive) /\ row.valid
 
 \* clauses that apply to a row kind (only those are evaluated: 65k-row tables)
@@ -96,7 +108,7 @@ ClausesFor(k) ==
     [] k = "big" -> {"C08_BigStrongExact", "C08_BigWeakStrict", "Conf_BigWeakExact"}
     [] k = "use" -> {"C08_SitesAgree"}
     [] k = "tally" -> {"C08_TallyStrong", "C08_TallyWeakStrict", "C08_TallyCouldReachSound", "Conf_Tally"}
-    [] k = "scale" -> {"C08_ScaleOrder", "C08_ScaleBound", "C08_ScaleSum", "Conf_ScaleFloor", "Conf_ScaleAccepts"}
+    [] k = "scale" -> {"C08_ScaleOrder", "C08_ScaleBound", "C08_ScaleSum", "Conf_ScaleFloor", "Conf_ScaleAccepts", "Conf_ScaleOrdLogged"}
     [] OTHER -> {}
 Holds(c) == CASE c = "C08_StrongExact" -> C08_StrongExact [] c = "C08_WeakStrict" -> C08_WeakStrict
               [] c = "Conf_WeakExact" -> Conf_WeakExact [] c = "C08_CouldReachSound" -> C08_CouldReachSound
@@ -107,10 +119,10 @@ Holds(c) == CASE c = "C08_StrongExact" -> C08_StrongExact [] c = "C08_WeakStrict
               [] c = "C08_TallyWeakStrict" -> C08_TallyWeakStrict [] c = "C08_TallyCouldReachSound" -> C08_TallyCouldReachSound
               [] c = "Conf_Tally" -> Conf_Tally [] c = "C08_ScaleOrder" -> C08_ScaleOrder [] c = "C08_ScaleBound" -> C08_ScaleBound
               [] c = "C08_ScaleSum" -> C08_ScaleSum [] c = "Conf_ScaleFloor" -> Conf_ScaleFloor
-              [] c = "Conf_ScaleAccepts" -> Conf_ScaleAccepts
+              [] c = "Conf_ScaleAccepts" -> Conf_ScaleAccepts [] c = "Conf_ScaleOrdLogged" -> Conf_ScaleOrdLogged
 TStep == /\ TNext
-         /\ LET nb == {c \in ClausesFor(row.k)' : ~(Holds(c))'} IN
+         /\ LET nb == {c \in ClausesFor(row.k) : ~Holds(c)} IN
               /\ bad' = bad \cup {<<l, c>> : c \in nb}
               /\ (nb = {} \/ Cardinality(bad) > 40 \/ PrintT(<<"VERIF_BAD", l, nb>>))
-TSpec == TInit /\ [][TStep]_<<l, row, bad>>
+TSpec == TInit /\ [][TStep]_<<l, bad>>
 =============================================================================
